@@ -136,6 +136,30 @@ theorem save_load_id_partial (s : Plan) (hnat : ∀ p ∈ s.vdses, p.1 = natBin 
   rw [this]
   exact sortDesc_binOf s.vdses b
 
+/-- **The import intervals survive save → load unchanged**: `_convert_from_json ∘ _convert_to_json` is the identity on
+intervals, *including the two `includes_*` flags* … -/
+theorem save_load_intervals (ivs : List Iv) : reloadIntervals ivs = ivs := reloadIntervals_eq ivs
+
+/-- … so a combiner resumed from its plan imports with the same partitioning: for the closed intervals that
+`calculate_even_genome_partitioning` produces for a contig, every base is still covered exactly once after the round
+trip (a decoder that re-created the intervals half-open would lose the last base of each: `example` below). -/
+theorem resumed_partition_covers (c L size : Nat) (hL : 1 ≤ L) (hs : 1 ≤ size) :
+    ∃ ivs, evenPartition L size = some ivs ∧
+      ∀ p, 1 ≤ p → p ≤ L → (reloadIntervals (ivs.map (closedIv c))).countP (fun i => i.covers c p) = 1 := by
+  obtain ⟨ivs, h1, h2, _⟩ := partition_each_base_once L size hL hs
+  refine ⟨ivs, h1, ?_⟩
+  intro p hp1 hp2
+  rw [reloadIntervals_eq, List.countP_map]
+  have : ((fun i => i.covers c p) ∘ closedIv c) = covers p := by
+    funext iv; exact closedIv_covers c iv p
+  rw [this]
+  exact h2 p hp1 hp2
+
+-- what a lossy decoder (`hl.Interval(start, end)` with the default `includes_end=False`) would do to `[1,4] [5,8] [9,11]`
+example : ([(1, 4), (5, 8), (9, 11)].map fun iv => (⟨0, iv.1, 0, iv.2, true, false⟩ : Iv)).countP (fun i => i.covers 0 4) = 0 := by
+  decide
+example : (reloadIntervals ([(1, 4), (5, 8), (9, 11)].map (closedIv 0))).countP (fun i => i.covers 0 4) = 1 := by decide
+
 /-- the bump is lost by save → load: three one-sample datasets, branch factor 2 (exact logarithm): after one step the
 merged pair sits in bin 2, after `load(save(·))` it is back in bin 1, *in front of* the dataset that was there. -/
 example :
